@@ -149,11 +149,14 @@ _IM = "object::index_map::verif::"
 I1 = [H(_IM + "i1_indexes_%d" % n, "in", "quick", 600,
         "Indexes with %d position(s): all ascending position tuples < 8; operation (insert/remove/shift_up/shift_down) and its argument i < 9 symbolic" % n,
         "unwind 7") for n in (1, 2, 3, 4)]
-_K3 = "three entries with keys symbolic over {a, b, c, ''} (a, c, '' collide under the model hasher, b does not)"
-I2 = [H(_IM + "i2_insert_n%d" % n, "in", "quick", 900, _K3 + "; pre-state = canonical index of the first %d" % n, "unwind 6") for n in (0, 1, 2)] + \
-     [H(_IM + "i2_insert_front_n%d" % n, "in", "quick", 900, _K3 + "; pre-state = canonical index of the %d old entries" % n, "unwind 6") for n in (0, 1, 2)] + \
-     [H(_IM + "i2_remove_n%d" % n, "in", "quick", 900, _K3 + "; pre-state = canonical index of %d entries; removed position symbolic" % n, "unwind 6") for n in (1, 2, 3)] + \
-     [H(_IM + "i2_clear_rebuild", "in", "quick", 900, _K3 + "; arbitrary previous canonical index (3 more symbolic keys)", "unwind 6")]
+_PAT1 = ["a"]
+_PAT2 = ["aa", "ab"]
+_PAT3 = ["aaa", "aab", "aba", "abb", "abc"]
+_K3 = "key-equality pattern %s concrete (shape of the index), key identities symbolic: an arbitrary permutation of {a, b, c, ''} assigned to the classes (a, c, '' collide under the model hasher, b does not)"
+I2 = [H(_IM + "i2_insert_" + p_, "in", "quick", 900, (_K3 % p_) + "; pre-state = canonical index of all but the last entry", "unwind 5") for p_ in _PAT1 + _PAT2 + _PAT3] + \
+     [H(_IM + "i2_insert_front_" + p_, "in", "quick", 900, (_K3 % p_) + "; pre-state = canonical index of all but the first entry", "unwind 5") for p_ in _PAT1 + _PAT2 + _PAT3] + \
+     [H(_IM + "i2_remove_" + p_, "in", "quick", 900, (_K3 % p_) + "; pre-state = canonical index; removed position symbolic", "unwind 5") for p_ in _PAT1 + _PAT2 + _PAT3] + \
+     [H(_IM + "i2_clear_rebuild_" + p_, "in", "quick", 900, (_K3 % p_) + "; previous index: canonical index of another pattern with another symbolic key assignment", "unwind 5") for p_ in ("aba", "abc", "aaa")]
 
 PROPS["C06"] = dict(
 	design_ref="DESIGN.md §4 C06",
@@ -262,10 +265,10 @@ PROPS["C12"] = dict(
 
 # ---------------------------------------------------------------------------
 _OV = "object::verif::"
-_OBJ = "object of %d entries built directly from an entry vector (keys symbolic over {a,b,c,''}, values symbolic over 4 scalars) plus the harness-built canonical index"
-I3 = [H(_OV + "i3_object_op_n%d" % n, "in", "quick", 2400,
-        (_OBJ % n) + "; one operation symbolic over push / push_front / insert / remove_at / remove(key) / remove_unique with symbolic key, value, position and (for the removal iterators) consumed / partially consumed / dropped",
-        "n=%d, unwind 6" % n, gb=6.0) for n in (0, 1, 2)]
+_OBJ = "object with key-equality pattern '%s' built directly from an entry vector (key identities: symbolic permutation of {a,b,c,''}; values symbolic over 4 scalars) plus the harness-built canonical index"
+I3 = [H(_OV + "i3_object_op_" + p_, "in", "quick", 2400,
+        (_OBJ % p_) + "; one operation symbolic over push / push_front / insert / remove_at / remove(key) / remove_unique with symbolic key, value, position and (for the removal iterators) consumed / partially consumed / dropped",
+        "unwind 6", gb=6.0) for p_ in ("empty", "a", "aa", "ab")]
 PROPS["C06"]["harnesses"] = I1 + I2 + I3
 PROPS["C06"]["functions"] += ["Object::{push,push_entry,push_front,push_entry_front,insert,remove_at,remove,remove_unique,len,is_empty,contains_key,index_of,redundant_index_of,indexes_of,get,get_entries_with_index,get_unique}",
                               "RemovedByInsertion/RemovedEntries iterators and their Drop"]
@@ -295,11 +298,11 @@ PROPS["C10"] = dict(
 	bounds="keys <= 2 characters; index rebuild over <= 3 entries",
 	outside=["numbers", "Object::canonicalize_with on heap objects (sort_by trusted)", "documents as wholes"],
 	stubs=[STUB_GROW], assumptions=[],
-	harnesses=C10H + pick(I2, ["i2_clear_rebuild", "i2_insert_n2"]) + pick(C09H, ["c09_member_order_is_utf16_1char"]),
+	harnesses=C10H + pick(I2, ["i2_clear_rebuild_aba", "i2_clear_rebuild_abc", "i2_clear_rebuild_aaa", "i2_insert_aba"]) + pick(C09H, ["c09_member_order_is_utf16_1char"]),
 )
 
-C14O = [H(_OV + "c14_index_independence_n%d" % n, "in", "quick", 2400, (_OBJ % n) + " vs. the same entries with an EMPTY index, and vs. another symbolic key list", "n=%d, unwind 10" % n, gb=6.0) for n in (0, 1, 2)] + \
-       [H(_OV + "c14_clone_n%d" % n, "in", "quick", 2400, _OBJ % n, "n=%d, unwind 6" % n, gb=6.0) for n in (1, 2)]
+C14O = [H(_OV + "c14_index_independence_" + p_, "in", "quick", 2400, (_OBJ % p_) + " vs. the same entries with an EMPTY index, and vs. the same keys with other symbolic values", "unwind 10", gb=6.0) for p_ in ("empty", "a", "aa", "ab")] + \
+       [H(_OV + "c14_clone_" + p_, "in", "quick", 2400, _OBJ % p_, "unwind 6", gb=6.0) for p_ in ("a", "aa", "ab")]
 C14E = [H("order::c14_laws_scalars", "ext", "quick", 1800, "three scalars: null / any boolean / number from 6 spellings / string of 0..=2 arbitrary characters", "unwind 10", gb=4.0),
         H("order::c14_laws_value_slices", "ext", "quick", 2400, "three [Value] slices of length 0..=2 over scalars with strings of <= 1 arbitrary character", "unwind 10", gb=6.0),
         H("order::c14_laws_entries", "ext", "quick", 1800, "three entries: keys of 0..=2 arbitrary characters, values null / boolean / number", "unwind 10", gb=4.0),
@@ -317,7 +320,7 @@ PROPS["C14"] = dict(
 )
 
 C11H = [H(_OV + "c11_array_iter_mapped_k%d" % k, "in", "quick", 900, "%d items; code map of 16 entries with arbitrary volumes except the children's roots, whose volumes are symbolic 1..=3; container offset 0..=2" % k, "k=%d, unwind 18" % k) for k in range(0, 4)] + \
-       [H(_OV + "c11_object_mapped_n%d" % n, "in", "quick", 2400, "%d entries with symbolic keys over {a,b,c,''}; value volumes symbolic 1..=3; container offset 0..=1; query key symbolic (present / duplicated / absent)" % n, "n=%d, unwind 18" % n, gb=6.0) for n in range(0, 4)]
+       [H(_OV + "c11_object_mapped_" + p_, "in", "quick", 2400, "object with key-equality pattern '%s' (key identities symbolic); value volumes symbolic 1..=3; container offset 0..=1; query key symbolic (present / duplicated / absent)" % p_, "unwind 18", gb=6.0) for p_ in ("empty", "a", "aa", "ab", "aaa", "aba", "abb", "abc")]
 
 PROPS["C11"] = dict(
 	design_ref="DESIGN.md §4 C11",
